@@ -343,6 +343,8 @@ class SATEncoder:
         for v in range(lb, ub + 1):
             var.bool_vars[v] = self._new_bool_var()
         self.model._vars[name] = var
+        # Created after _encode_vars ran, so constrain it here
+        self._encode_exactly_one(list(var.bool_vars.values()))
         return var
 
     # Global constraints
@@ -356,10 +358,11 @@ class SATEncoder:
         # All different
         self._encode_all_different(variables)
 
-        # No self-loops: x[i] != i
+        # Successors are node indices, and no self-loops: x[i] != i
         for i, var in enumerate(variables):
-            if i in var.bool_vars:
-                self._clauses.append([-var.bool_vars[i]])
+            for val, lit in var.bool_vars.items():
+                if val == i or not 0 <= val < n:
+                    self._clauses.append([-lit])
 
         if n <= 1:
             return
@@ -373,9 +376,7 @@ class SATEncoder:
         for i, var in enumerate(variables):
             for j in range(1, n):
                 if j in var.bool_vars:
-                    for ti in range(var.lb, var.ub + 1):
-                        if ti not in t[i].bool_vars:
-                            continue
+                    for ti in t[i].bool_vars:
                         for tj in range(t[j].lb, ti + 1):
                             if tj in t[j].bool_vars:
                                 self._clauses.append([-var.bool_vars[j], -t[i].bool_vars[ti], -t[j].bool_vars[tj]])
